@@ -22,9 +22,9 @@ var pathDiskSeq int
 
 func init() {
 	components["path.disk"] = func(r *rand.Rand, tier string) (map[string]interface{}, func() (interface{}, string)) {
-		dirs := []string{"/top", "/top/root", "/top/root/sub", "/top/root/sub/deep", "/top/outside", "/top/root-evil"}
+		dirs := []string{"/top", "/top/root", "/top/root/sub", "/top/root/sub/deep", "/top/outside", "/top/root-evil", "/top/Root", "/top/ROOT"}
 		files := map[string]string{"/top/root/f.yaml": "ROOT", "/top/root/sub/f.yaml": "SUB", "/top/root/sub/deep/f.yaml": "DEEP",
-			"/top/outside/f.yaml": "OUTSIDE", "/top/f.yaml": "TOP", "/top/root-evil/f.yaml": "EVIL"}
+			"/top/outside/f.yaml": "OUTSIDE", "/top/f.yaml": "TOP", "/top/root-evil/f.yaml": "EVIL", "/top/Root/f.yaml": "CAPROOT", "/top/ROOT/f.yaml": "ALLCAPS"}
 		type ent struct{ p, kind, v string }
 		var es []ent
 		for _, d := range dirs {
@@ -70,7 +70,10 @@ func init() {
 			if r.Intn(3) == 0 {
 				ops = append(ops, op{"new", pickS(r, []string{"sub", "l1", "l2", "sub/l1", "..", "sub/deep", "l3/sub", ".", "../outside", "l1/root", word()})})
 			} else {
-				ops = append(ops, op{"load", pickS(r, []string{"f.yaml", "sub/f.yaml", "l1/f.yaml", "l1", "l2/f.yaml", "sub/l3/f.yaml", "../outside/f.yaml", "l1/../f.yaml", word(), word()})})
+				ops = append(ops, op{"load", pickS(r, []string{"f.yaml", "sub/f.yaml", "l1/f.yaml", "l1", "l2/f.yaml", "sub/l3/f.yaml", "../outside/f.yaml", "l1/../f.yaml", word(), word(),
+					// absolute and NOT clean: lexically inside the root, physically through a link
+					"/top/root/l1/../f.yaml", "/top/root/sub/l1/../f.yaml", "/top/root/l2/../root/f.yaml", "/top/root/l3/../f.yaml",
+					"../Root/f.yaml", "../ROOT/f.yaml", "/top/Root/f.yaml", "../root-evil/f.yaml"})})
 			}
 		}
 		var wfs, wops []interface{}
